@@ -82,6 +82,9 @@ func Eligible() []int {
 				voidTargets = append(voidTargets, t.Idx)
 			}
 		}
+		if t.FixArgs != nil {
+			continue // needs argument normalisation that only world hist performs
+		}
 		if ft.NumOut() == 0 || t.Known != "" || t.Kind == "pkgfunc" || (t.Generic && simenv.RaceBuild) {
 			continue // pkgfunc targets resolve relative to the package that calls goom (world hist only)
 		}
